@@ -521,11 +521,13 @@ void vfps::HDF5File::_appendData(DatasetInfo<rank>& ds
                                 , const datatype* const data
                                 , const size_t size)
 {
+    VERIF_IP("h5:append:enter");
     std::array<hsize_t,rank> offset{{ds.dims[0]}};
     auto ext = ds.dims;
     ext[0] = size;
     ds.dims[0] += size;
     ds.dataset.extend(ds.dims.data());
+    VERIF_IP("h5:append:after_extend");
     H5::DataSpace filespace(ds.dataset.getSpace());
     filespace.selectHyperslab(H5S_SELECT_SET, ext.data(), offset.data());
     H5::DataSpace memspace(ds.rank,ext.data(),nullptr);
